@@ -22,10 +22,19 @@ func (ao *Array) Type() Type {
 
 // Inspect returns a string-representation of the given object.
 func (ao *Array) Inspect() string {
+	return ao.inspect(0)
+}
+
+// inspect is the implementation of Inspect, for an array which is the given
+// number of containers deep.
+func (ao *Array) inspect(depth int) string {
+	if depth > maxNesting {
+		return "[...]"
+	}
 	var out bytes.Buffer
 	elements := make([]string, 0)
 	for _, e := range ao.Elements {
-		elements = append(elements, e.Inspect())
+		elements = append(elements, inspectNested(e, depth+1))
 	}
 	out.WriteString("[")
 	out.WriteString(strings.Join(elements, ", "))
@@ -45,11 +54,24 @@ func (ao *Array) True() bool {
 //
 // It might also be helpful for embedded users.
 func (ao *Array) ToInterface() interface{} {
+	return ao.toInterface(0)
+}
+
+// toInterface is the implementation of ToInterface, for an array which is
+// the given number of arrays deep.
+func (ao *Array) toInterface(depth int) interface{} {
+	if depth > maxNesting {
+		return nil
+	}
 
 	res := make([]interface{}, len(ao.Elements))
 
 	for i, v := range ao.Elements {
-		res[i] = v.ToInterface()
+		if nested, ok := v.(*Array); ok {
+			res[i] = nested.toInterface(depth + 1)
+		} else {
+			res[i] = v.ToInterface()
+		}
 	}
 
 	return res
